@@ -220,8 +220,28 @@ class Real(Type):
     def __init__(self, name):
         super(Real, self).__init__(name, 'REAL')
 
+    SPECIAL_VALUES = {
+        'PLUS-INFINITY': float('inf'),
+        'MINUS-INFINITY': float('-inf'),
+        'NOT-A-NUMBER': float('nan')
+    }
+
     def encode(self, data):
         data = float(data)
+
+        if data != data or data in (float('inf'), float('-inf')):
+            # X.693: special values are empty elements.
+            if data != data:
+                special = 'NOT-A-NUMBER'
+            elif data > 0:
+                special = 'PLUS-INFINITY'
+            else:
+                special = 'MINUS-INFINITY'
+
+            element = ElementTree.Element(self.name)
+            ElementTree.SubElement(element, special)
+
+            return element
 
         # Mantissa and exponent are taken from the shortest decimal
         # text of the value ('-1234.5', '1e+22', '1.5e-07'), moving
@@ -245,6 +265,14 @@ class Real(Type):
         return element
 
     def decode(self, element):
+        if len(element) > 0:
+            try:
+                return self.SPECIAL_VALUES[element[0].tag]
+            except KeyError:
+                raise DecodeError(
+                    "Expected a REAL special value, but got '{}'.".format(
+                        element[0].tag))
+
         return float(element.text)
 
 
